@@ -30,7 +30,7 @@ def run(ctx, report: Report) -> None:
     mmod = src.mod('css_match')
 
     # ---- R1 ----------------------------------------------------------------------------------------------
-    r1 = report.rule('C05-R1', 'list-level facts depend only on the list\'s parse flags', floor=1)
+    r1 = report.rule('C05-R1', 'list-level facts depend only on the list\'s parse flags', floor=15)
     from .sem import list_facts_table
     list_facts_table(ctx, r1)
 
@@ -144,7 +144,7 @@ def run(ctx, report: Report) -> None:
                          f'internal prefix map and iframe restriction, and skipped in XML)')
 
     # ---- R5 ----------------------------------------------------------------------------------------------
-    r5 = report.rule('C05-R5', 'comma resets per-alternative state; implied universal selector (parsed token sequences)', floor=6)
+    r5 = report.rule('C05-R5', 'comma resets per-alternative state; implied universal selector (parsed token sequences)', floor=8)
     from .sem import comma_tables, implied_universal_tables
     comma_tables(ctx, r5)
     implied_universal_tables(ctx, r5)
